@@ -111,7 +111,7 @@ func runC04(k int, rng *Rng) CaseResult {
 		return w.finish(nil, false, nil)
 	}
 	o := HistOpts{MaxObjs: 10, BiasUnique: true, Rec: RecOpts{ValidOnly: true, Simple: true},
-		Mix: Mix{Ins: 35, Upd: 30, Noop: 3, Del: 12, Reins: 2, Many: 6, Bulk: 2, SDel: 2, Flush: 2, Tick: 2}}
+		Mix: Mix{Ins: 35, Upd: 30, Noop: 3, Del: 12, Reins: 2, Many: 6, Bulk: 2, SDel: 2, Flush: 6, Tick: 2}}
 	reopens := 0
 	segments := 2 + rng.Intn(4)
 	peeks := 0
